@@ -252,6 +252,10 @@ func c34History(r *Rec, prop string, h int, nBlocks int) {
 	var basketID uint64
 	dapps := []string{}
 	staleAt, staleStage, staleReq := 2+r.Rng.Intn(6), 0, uint64(0)
+	reimpAt := -1
+	if h%3 == 1 {
+		reimpAt = 4 + r.Rng.Intn(10)
+	}
 	custAt, custStage, custVotes, custHash := 3+r.Rng.Intn(8), 0, 0, ""
 	custMode := []uint64{67, 67, 34, 66, 100, 50}[r.Rng.Intn(6)]
 	e.cs = custodykeeper.NewMsgServerImpl(app.CustodyKeeper, app.CustomGovKeeper, app.BankKeeper)
@@ -339,6 +343,42 @@ func c34History(r *Rec, prop string, h int, nBlocks int) {
 				}})
 			}
 			staleStage++
+		}
+		// a third scripted strand: the gov state goes through its own ExportGenesis / InitGenesis (what a restart from an
+		// exported genesis does to the module; World.ReimportGovInPlace) with many identity requests on record - more
+		// requests than records, the newest ones still pending - and afterwards other accounts file new requests. Nobody
+		// signs the re-import: no account's coins or claims (escrowed tips) may change, neither then nor through what follows.
+		if b == reimpAt {
+			for j := 0; j < 9; j++ {
+				who, ver := j%5, (j%5+1+j/5)%6
+				ops = append(ops, c34Op{"ident-request", who, func(ctx sdk.Context) error {
+					recs := app.CustomGovKeeper.GetIdRecordsByAddress(ctx, A[who])
+					if len(recs) == 0 {
+						return fmt.Errorf("no records")
+					}
+					_, err := e.gs.RequestIdentityRecordsVerify(sdk.WrapSDKContext(ctx), govtypes.NewMsgRequestIdentityRecordsVerify(A[who], A[ver], []uint64{recs[0].Id}, sdk.NewInt64Coin("ukex", int64(300+j))))
+					return err
+				}})
+			}
+			ops = append(ops, c34Op{"gov-reimport", -1, func(ctx sdk.Context) error {
+				if f := w.ReimportGovInPlace(ctx); f != nil {
+					return fmt.Errorf("gov InitGenesis of the exported state failed: %v", f)
+				}
+				return nil
+			}})
+		}
+		if b == reimpAt+1 || b == reimpAt+2 {
+			for j := 0; j < 3; j++ {
+				who, ver := 5-j, j
+				ops = append(ops, c34Op{"ident-request", who, func(ctx sdk.Context) error {
+					recs := app.CustomGovKeeper.GetIdRecordsByAddress(ctx, A[who])
+					if len(recs) == 0 {
+						return fmt.Errorf("no records")
+					}
+					_, err := e.gs.RequestIdentityRecordsVerify(sdk.WrapSDKContext(ctx), govtypes.NewMsgRequestIdentityRecordsVerify(A[who], A[ver], []uint64{recs[0].Id}, sdk.NewInt64Coin("ukex", int64(250+j))))
+					return err
+				}})
+			}
 		}
 		// a second scripted strand: account 3 puts itself under custody of accounts 0,1,2 (threshold chosen so that the
 		// share of approvals has a fractional part: 2 of 3 at 67 %), requests a custody transfer, and the custodians approve
